@@ -115,3 +115,328 @@ Proof. intros. unfold takez. apply firstn_all2. unfold zlen in *. lia. Qed.
 
 Lemma dropz_all' {A} (l : list A) n : zlen l <= n -> dropz n l = [].
 Proof. intros. unfold dropz. apply skipn_all2. unfold zlen in *. lia. Qed.
+
+(* ---------- takez / dropz over append, Forall2 ---------- *)
+Lemma takez_app {A} (a b : list A) n : takez n (a ++ b) = takez n a ++ takez (n - zlen a) b.
+Proof.
+  unfold takez, zlen. rewrite firstn_app. f_equal. f_equal. lia.
+Qed.
+
+Lemma dropz_app {A} (a b : list A) n : dropz n (a ++ b) = dropz n a ++ dropz (n - zlen a) b.
+Proof.
+  unfold dropz, zlen. rewrite skipn_app. f_equal. f_equal. lia.
+Qed.
+
+Lemma takez_nonpos {A} (l : list A) n : n <= 0 -> takez n l = [].
+Proof. intros. unfold takez. replace (Z.to_nat n) with 0%nat by lia. reflexivity. Qed.
+
+Lemma dropz_nonpos {A} (l : list A) n : n <= 0 -> dropz n l = l.
+Proof. intros. unfold dropz. replace (Z.to_nat n) with 0%nat by lia. reflexivity. Qed.
+
+Lemma dropz_dropz' {A} (l : list A) a b : 0 <= a -> 0 <= b -> dropz a (dropz b l) = dropz (a + b) l.
+Proof.
+  intros. unfold dropz. replace (Z.to_nat (a + b)) with (Z.to_nat b + Z.to_nat a)%nat by lia.
+  generalize (Z.to_nat a) as n. generalize (Z.to_nat b) as m. clear. intros m. revert l.
+  induction m; intros l n; cbn [skipn Nat.add]; [reflexivity|]. destruct l; [destruct n; reflexivity|]. apply IHm.
+Qed.
+
+Lemma takez_takez {A} (l : list A) a b : 0 <= a <= b -> takez a (takez b l) = takez a l.
+Proof.
+  intros. unfold takez. assert (Z.to_nat a <= Z.to_nat b)%nat as H0 by lia.
+  revert H0. generalize (Z.to_nat a) as n. generalize (Z.to_nat b) as m. clear. intros m n. revert l m.
+  induction n; intros l m Hm; [reflexivity|]. destruct m; [lia|]. destruct l; [reflexivity|]. cbn [firstn]. f_equal. apply IHn. lia.
+Qed.
+
+Lemma Forall2_zlen {A B} (P : A -> B -> Prop) l m : Forall2 P l m -> zlen l = zlen m.
+Proof. intros H. unfold zlen. induction H; cbn [length]; lia. Qed.
+
+Lemma Forall2_takez {A B} (P : A -> B -> Prop) n l m : Forall2 P l m -> Forall2 P (takez n l) (takez n m).
+Proof.
+  intros H. unfold takez. generalize (Z.to_nat n) as k. induction H; intros [|k]; cbn [firstn]; constructor; auto.
+Qed.
+
+Lemma Forall2_dropz {A B} (P : A -> B -> Prop) n l m : Forall2 P l m -> Forall2 P (dropz n l) (dropz n m).
+Proof.
+  intros H. unfold dropz. generalize (Z.to_nat n) as k. induction H; intros [|k]; cbn [skipn]; auto.
+Qed.
+
+Lemma Forall2_nthz {A B} (P : A -> B -> Prop) l m i a :
+  Forall2 P l m -> nthz l i = Some a -> exists b, nthz m i = Some b /\ P a b.
+Proof.
+  intros H. unfold nthz. destruct (i <? 0); [discriminate|]. generalize (Z.to_nat i) as k.
+  induction H; intros [|k] Hn; cbn [nth_error] in *; try discriminate.
+  - inversion Hn; subst. eauto.
+  - eauto.
+Qed.
+
+Lemma Forall2_repeat' {A B} (P : A -> B -> Prop) a b n : P a b -> Forall2 P (repeat a n) (repeat b n).
+Proof. intros. induction n; cbn; constructor; auto. Qed.
+
+Lemma get_index_nthz {A} (l : list A) i x : 0 <= i -> nthz l i = Some x -> get_index l i = Ok x.
+Proof. intros Hi H. unfold get_index. rewrite norm_index_in by lia. rewrite H. reflexivity. Qed.
+
+Lemma set_index_eq {A} (l : list A) i x : 0 <= i < zlen l -> set_index l i x = Ok (takez i l ++ x :: dropz (i + 1) l).
+Proof. intros H. unfold set_index. rewrite norm_index_in by lia. rewrite index_ok_in by lia. reflexivity. Qed.
+
+Lemma pop_eq {A} (l : list A) i x : 0 <= i < zlen l -> nthz l i = Some x -> pop l i = Ok (x, takez i l ++ dropz (i + 1) l).
+Proof. intros H Hx. unfold pop. rewrite norm_index_in by lia. rewrite index_ok_in by lia. rewrite Hx. reflexivity. Qed.
+
+Lemma insert_eq {A} (l : list A) i x : 0 <= i <= zlen l -> insert l i x = takez i l ++ x :: dropz i l.
+Proof.
+  intros H. unfold insert, insert_pos. replace (i <? 0) with false by lia. replace (Z.min i (zlen l)) with i by lia. reflexivity.
+Qed.
+
+Lemma dropz_takez {A} (l : list A) a b : 0 <= a -> dropz a (takez b l) = takez (b - a) (dropz a l).
+Proof.
+  intros Ha. unfold dropz, takez.
+  destruct (Z_le_gt_dec a b) as [Hab|Hab].
+  - replace (Z.to_nat b) with (Z.to_nat a + Z.to_nat (b - a))%nat by lia.
+    generalize (Z.to_nat (b - a)) as m. generalize (Z.to_nat a) as n. clear. intros n. revert l.
+    induction n; intros l m; cbn [Nat.add skipn]; [reflexivity|]. destruct l; [destruct m; reflexivity|]. cbn [firstn skipn]. apply IHn.
+  - replace (Z.to_nat (b - a)) with 0%nat by lia. cbn [firstn].
+    apply skipn_all2. rewrite firstn_length. lia.
+Qed.
+
+(* one line leaves at [top], a new one enters at [bot] (and the other way round) *)
+Lemma scroll_up_list {A} (l : list A) top bot x : 0 <= top <= bot -> bot < zlen l ->
+  let T := takez top l ++ dropz (top + 1) l in
+  takez bot T ++ x :: dropz bot T = takez top l ++ takez (bot - top) (dropz (top + 1) l) ++ x :: dropz (bot + 1) l.
+Proof.
+  intros H1 H2. cbv zeta. rewrite takez_app, dropz_app. rewrite zlen_takez by lia.
+  replace (Z.min top (zlen l)) with top by lia.
+  rewrite (takez_all' (takez top l)) by (rewrite zlen_takez; lia).
+  rewrite (dropz_all' (takez top l)) by (rewrite zlen_takez; lia).
+  rewrite dropz_dropz' by lia. replace (bot - top + (top + 1)) with (bot + 1) by lia.
+  cbn [app]. rewrite <- app_assoc. reflexivity.
+Qed.
+
+Lemma scroll_down_list {A} (l : list A) top bot x : 0 <= top <= bot -> bot < zlen l ->
+  let T := takez bot l ++ dropz (bot + 1) l in
+  takez top T ++ x :: dropz top T = takez top l ++ x :: takez (bot - top) (dropz top l) ++ dropz (bot + 1) l.
+Proof.
+  intros H1 H2. cbv zeta. rewrite takez_app, dropz_app. rewrite zlen_takez by lia.
+  replace (Z.min bot (zlen l)) with bot by lia.
+  rewrite (takez_takez l top bot) by lia. rewrite (takez_nonpos _ (top - bot)) by lia.
+  rewrite (dropz_nonpos _ (top - bot)) by lia. rewrite dropz_takez by lia.
+  rewrite app_nil_r. reflexivity.
+Qed.
+
+(* ---------- replacing one element ---------- *)
+Lemma takez_upd {A} (l : list A) i x : 0 <= i < zlen l ->
+  takez (i + 1) (takez i l ++ x :: dropz (i + 1) l) = takez i l ++ [x].
+Proof.
+  intros H. rewrite takez_app. rewrite zlen_takez by lia. replace (Z.min i (zlen l)) with i by lia.
+  rewrite (takez_all' (takez i l)) by (rewrite zlen_takez; lia).
+  replace (i + 1 - i) with 1 by lia. reflexivity.
+Qed.
+
+Lemma dropz_cons {A} (x : A) l k : 0 <= k -> dropz (k + 1) (x :: l) = dropz k l.
+Proof. intros. unfold dropz. replace (Z.to_nat (k + 1)) with (S (Z.to_nat k)) by lia. reflexivity. Qed.
+
+Lemma dropz_upd {A} (l : list A) i x k : 0 <= i < zlen l -> 0 <= k ->
+  dropz (i + 1 + k) (takez i l ++ x :: dropz (i + 1) l) = dropz (i + 1 + k) l.
+Proof.
+  intros H Hk. rewrite dropz_app. rewrite zlen_takez by lia. replace (Z.min i (zlen l)) with i by lia.
+  rewrite (dropz_all' (takez i l)) by (rewrite zlen_takez; lia).
+  replace (i + 1 + k - i) with (k + 1) by lia. rewrite dropz_cons by lia. rewrite dropz_dropz' by lia.
+  cbn [app]. f_equal. lia.
+Qed.
+
+Lemma takez_upd_lt {A} (l : list A) i x : 0 <= i < zlen l ->
+  takez i (takez i l ++ x :: dropz (i + 1) l) = takez i l.
+Proof.
+  intros H. rewrite takez_app. rewrite zlen_takez by lia. replace (Z.min i (zlen l)) with i by lia.
+  rewrite (takez_all' (takez i l)) by (rewrite zlen_takez; lia).
+  rewrite (takez_nonpos _ (i - i)) by lia. apply app_nil_r.
+Qed.
+
+Lemma nthz_upd {A} (l : list A) i x : 0 <= i < zlen l -> nthz (takez i l ++ x :: dropz (i + 1) l) i = Some x.
+Proof.
+  intros H. unfold nthz. replace (i <? 0) with false by lia. unfold takez.
+  rewrite nth_error_app2; rewrite firstn_length; unfold zlen in H; [|lia].
+  replace (Z.to_nat i - Nat.min (Z.to_nat i) (length l))%nat with 0%nat by lia. reflexivity.
+Qed.
+
+Lemma Forall2_repeat_r {A B} (P : A -> B -> Prop) l b : Forall (fun a => P a b) l -> Forall2 P l (repeat b (length l)).
+Proof. intros H. induction H; cbn [length repeat]; constructor; auto. Qed.
+
+Lemma zlen_upd {A} (l : list A) i x : 0 <= i < zlen l -> zlen (takez i l ++ x :: dropz (i + 1) l) = zlen l.
+Proof. intros H. rewrite zlen_app, zlen_cons, zlen_takez, zlen_dropz by lia. lia. Qed.
+
+(* ---------- shifting a segment: insert at the front / delete at the front ---------- *)
+Definition shr {A} (e : A) (l : list A) : list A := e :: takez (zlen l - 1) l.
+Definition shl {A} (e : A) (l : list A) : list A := dropz 1 l ++ [e].
+
+Lemma takez_cons {A} (x : A) l k : 0 <= k -> takez (k + 1) (x :: l) = x :: takez k l.
+Proof. intros. unfold takez. replace (Z.to_nat (k + 1)) with (S (Z.to_nat k)) by lia. reflexivity. Qed.
+
+Lemma takez_repeat {A} (e : A) n j : 0 <= j -> takez j (repeat e n) = repeat e (Nat.min (Z.to_nat j) n).
+Proof.
+  intros. unfold takez. generalize (Z.to_nat j) as k. clear. intros k. revert k.
+  induction n; intros [|k]; cbn [repeat firstn Nat.min]; try reflexivity. f_equal. apply IHn.
+Qed.
+
+Lemma zlen_shr {A} (e : A) l : 0 < zlen l -> zlen (shr e l) = zlen l.
+Proof. intros. unfold shr. rewrite zlen_cons, zlen_takez by lia. lia. Qed.
+
+Lemma zlen_shl {A} (e : A) l : 0 < zlen l -> zlen (shl e l) = zlen l.
+Proof. intros. unfold shl. rewrite zlen_app, zlen_dropz, zlen_cons by lia. unfold zlen at 2. cbn [length]. lia. Qed.
+
+Lemma repeat_snoc {A} (e : A) n : repeat e n ++ [e] = e :: repeat e n.
+Proof. induction n; cbn [repeat app]; [reflexivity|]. rewrite IHn. reflexivity. Qed.
+
+Lemma shr_iter {A} (e : A) k : forall l, 0 < zlen l ->
+  Nat.iter k (shr e) l = repeat e (Nat.min k (Z.to_nat (zlen l))) ++ takez (zlen l - Z.of_nat (Nat.min k (Z.to_nat (zlen l)))) l.
+Proof.
+  induction k; intros l Hl.
+  - change (Nat.iter 0 (shr e) l) with l. cbn [Nat.min repeat app]. rewrite takez_all' by lia. reflexivity.
+  - change (Nat.iter (S k) (shr e) l) with (shr e (Nat.iter k (shr e) l)). rewrite IHk by assumption.
+    set (m := zlen l) in *. set (j := Nat.min k (Z.to_nat m)).
+    assert (zlen (repeat e j ++ takez (m - Z.of_nat j) l) = m) as Lm.
+    { rewrite zlen_app, zlen_repeat, zlen_takez by lia. fold m. lia. }
+    unfold shr. rewrite Lm. rewrite takez_app. rewrite zlen_repeat.
+    rewrite takez_repeat by lia.
+    destruct (Nat.lt_ge_cases k (Z.to_nat m)) as [Hk|Hk].
+    + replace (Nat.min (S k) (Z.to_nat m)) with (S j) by lia.
+      replace (Nat.min (Z.to_nat (m - 1)) j) with j by lia.
+      rewrite takez_takez by lia. cbn [repeat app]. f_equal. f_equal. f_equal. lia.
+    + replace (Nat.min (S k) (Z.to_nat m)) with (Z.to_nat m) by lia.
+      replace j with (Z.to_nat m) by lia.
+      replace (Nat.min (Z.to_nat (m - 1)) (Z.to_nat m)) with (Z.to_nat (m - 1)) by lia.
+      rewrite (takez_nonpos _ (m - 1 - Z.of_nat (Z.to_nat m))) by lia.
+      rewrite (takez_nonpos _ (m - Z.of_nat (Z.to_nat m))) by lia. rewrite !app_nil_r.
+      replace (Z.to_nat m) with (S (Z.to_nat (m - 1))) by lia. reflexivity.
+Qed.
+
+Lemma shl_iter {A} (e : A) k : forall l, 0 < zlen l ->
+  Nat.iter k (shl e) l = dropz (Z.of_nat (Nat.min k (Z.to_nat (zlen l)))) l ++ repeat e (Nat.min k (Z.to_nat (zlen l))).
+Proof.
+  induction k; intros l Hl.
+  - change (Nat.iter 0 (shl e) l) with l. cbn [Nat.min repeat]. rewrite app_nil_r. reflexivity.
+  - change (Nat.iter (S k) (shl e) l) with (shl e (Nat.iter k (shl e) l)). rewrite IHk by assumption.
+    set (m := zlen l) in *. set (j := Nat.min k (Z.to_nat m)).
+    unfold shl. rewrite dropz_app. rewrite zlen_dropz by lia. fold m.
+    destruct (Nat.lt_ge_cases k (Z.to_nat m)) as [Hk|Hk].
+    + replace (Nat.min (S k) (Z.to_nat m)) with (S j) by lia.
+      rewrite dropz_dropz' by lia. rewrite (dropz_nonpos _ (1 - Z.max 0 (m - Z.of_nat j))) by lia.
+      rewrite <- app_assoc. rewrite repeat_snoc. cbn [repeat]. f_equal. f_equal. lia.
+    + replace (Nat.min (S k) (Z.to_nat m)) with (Z.to_nat m) by lia. replace j with (Z.to_nat m) by lia.
+      rewrite (dropz_all' l (Z.of_nat (Z.to_nat m))) by lia. cbn [app].
+      rewrite (dropz_all' (@nil A)) by (rewrite zlen_nil; lia). cbn [app].
+      replace (1 - Z.max 0 (m - Z.of_nat (Z.to_nat m))) with 1 by lia.
+      destruct (Z.to_nat m) eqn:Em; [lia|]. cbn [repeat]. change (dropz 1 (e :: repeat e n)) with (repeat e n). rewrite repeat_snoc. reflexivity.
+Qed.
+
+(* ---------- lists of the shape A ++ seg ++ C ---------- *)
+Lemma takez_app_l {A} (a b : list A) n : 0 <= n <= zlen a -> takez n (a ++ b) = takez n a.
+Proof. intros. rewrite takez_app. rewrite (takez_nonpos _ (n - zlen a)) by lia. apply app_nil_r. Qed.
+
+Lemma takez_app_r {A} (a b : list A) n : zlen a <= n -> takez n (a ++ b) = a ++ takez (n - zlen a) b.
+Proof. intros. rewrite takez_app. rewrite (takez_all' a) by lia. reflexivity. Qed.
+
+Lemma dropz_app_r {A} (a b : list A) n : zlen a <= n -> dropz n (a ++ b) = dropz (n - zlen a) b.
+Proof. intros. rewrite dropz_app. rewrite (dropz_all' a) by lia. reflexivity. Qed.
+
+Lemma dropz_0 {A} (l : list A) : dropz 0 l = l.
+Proof. reflexivity. Qed.
+
+Lemma nthz_mid {A} (a c : list A) x : nthz (a ++ x :: c) (zlen a) = Some x.
+Proof.
+  pose proof (zlen_nonneg a). unfold nthz. replace (zlen a <? 0) with false by lia.
+  rewrite nth_error_app2 by (unfold zlen; lia). unfold zlen. rewrite Nat2Z.id. rewrite Nat.sub_diag. reflexivity.
+Qed.
+
+Lemma takez_mid {A} (a c : list A) x : takez (zlen a) (a ++ x :: c) = a.
+Proof. pose proof (zlen_nonneg a). rewrite takez_app_l by lia. apply takez_all'. lia. Qed.
+
+Lemma dropz_mid {A} (a c : list A) x : dropz (zlen a + 1) (a ++ x :: c) = c.
+Proof.
+  pose proof (zlen_nonneg a). rewrite dropz_app_r by lia. replace (zlen a + 1 - zlen a) with (0 + 1) by lia.
+  rewrite dropz_cons by lia. reflexivity.
+Qed.
+
+Lemma get_mid {A} (a c : list A) x : get_index (a ++ x :: c) (zlen a) = Ok x.
+Proof. apply get_index_nthz; [apply zlen_nonneg|apply nthz_mid]. Qed.
+
+Lemma set_mid {A} (a c : list A) x x' : set_index (a ++ x :: c) (zlen a) x' = Ok (a ++ x' :: c).
+Proof.
+  pose proof (zlen_nonneg a). pose proof (zlen_nonneg c).
+  rewrite set_index_eq by (rewrite zlen_app, zlen_cons; lia). rewrite takez_mid, dropz_mid. reflexivity.
+Qed.
+
+Lemma split_at {A} (l : list A) y r : nthz l y = Some r -> l = takez y l ++ r :: dropz (y + 1) l.
+Proof.
+  unfold nthz, takez, dropz. destruct (y <? 0) eqn:C; [discriminate|].
+  replace (Z.to_nat (y + 1)) with (S (Z.to_nat y)) by lia. generalize (Z.to_nat y) as n. clear. intros n. revert l.
+  induction n; intros [|a l] H; cbn [nth_error] in H; try discriminate.
+  - inversion H. reflexivity.
+  - cbn [firstn skipn app]. f_equal. apply IHn. exact H.
+Qed.
+
+Lemma pop_last_eq {A} (l : list A) : 0 < zlen l -> exists x, pop l (-1) = Ok (x, takez (zlen l - 1) l).
+Proof.
+  intros H. unfold pop, norm_index. replace (-1 <? 0) with true by lia. rewrite index_ok_in by lia.
+  destruct (nthz_some l (-1 + zlen l)) as (x & Hx & _); [lia|]. rewrite Hx. exists x.
+  replace (-1 + zlen l + 1) with (zlen l) by lia. rewrite (dropz_all' l) by lia. rewrite app_nil_r.
+  replace (-1 + zlen l) with (zlen l - 1) by lia. reflexivity.
+Qed.
+
+(* insert at the front of the segment, the last element of the segment leaves: rows (ICH) *)
+Lemma ich_step {A} (p s : list A) e : 0 < zlen s ->
+  exists x, pop (insert (p ++ s) (zlen p) e) (-1) = Ok (x, p ++ shr e s).
+Proof.
+  intros Hs. pose proof (zlen_nonneg p).
+  rewrite insert_eq by (rewrite zlen_app; lia).
+  rewrite takez_app_l by lia. rewrite (takez_all' p) by lia.
+  rewrite dropz_app_r by lia. replace (zlen p - zlen p) with 0 by lia. rewrite dropz_0.
+  destruct (pop_last_eq (p ++ e :: s)) as (x & E); [rewrite zlen_app, zlen_cons; lia|].
+  exists x. rewrite E. f_equal. f_equal. rewrite zlen_app, zlen_cons.
+  rewrite takez_app_r by lia. unfold shr. f_equal.
+  replace (zlen p + (1 + zlen s) - 1 - zlen p) with (zlen s - 1 + 1) by lia. rewrite takez_cons by lia. reflexivity.
+Qed.
+
+(* delete at the front of the segment, a new element enters at its end: rows (DCH) *)
+Lemma dch_step {A} (p s : list A) : 0 < zlen s ->
+  exists x, pop (p ++ s) (zlen p) = Ok (x, p ++ dropz 1 s).
+Proof.
+  intros Hs. pose proof (zlen_nonneg p). destruct s as [|s0 s']; [exfalso; unfold zlen in Hs; cbn [length] in Hs; lia|].
+  exists s0. rewrite (pop_eq (p ++ s0 :: s') (zlen p) s0); [|rewrite zlen_app; lia|apply nthz_mid].
+  rewrite takez_mid, dropz_mid. reflexivity.
+Qed.
+
+(* the same on a segment in the middle: lines (IL, DL) *)
+Lemma il_step {A} (a s c : list A) e : 0 < zlen s ->
+  exists x, pop (a ++ s ++ c) (zlen a + zlen s - 1) = Ok (x, a ++ takez (zlen s - 1) s ++ c) /\
+            insert (a ++ takez (zlen s - 1) s ++ c) (zlen a) e = a ++ shr e s ++ c.
+Proof.
+  intros Hs. pose proof (zlen_nonneg a). pose proof (zlen_nonneg c).
+  destruct (nthz_some (a ++ s ++ c) (zlen a + zlen s - 1)) as (x & Hx & _); [rewrite !zlen_app; lia|].
+  exists x. split.
+  - rewrite (pop_eq _ _ x) by (auto; rewrite !zlen_app; lia). f_equal. f_equal.
+    rewrite takez_app_r by lia. rewrite dropz_app_r by lia.
+    replace (zlen a + zlen s - 1 - zlen a) with (zlen s - 1) by lia.
+    replace (zlen a + zlen s - 1 + 1 - zlen a) with (zlen s) by lia.
+    rewrite takez_app_l by lia. rewrite dropz_app_r by lia. replace (zlen s - zlen s) with 0 by lia. rewrite dropz_0.
+    rewrite app_assoc. reflexivity.
+  - pose proof (zlen_nonneg (takez (zlen s - 1) s)).
+    rewrite insert_eq by (rewrite !zlen_app; lia).
+    rewrite takez_app_l by lia. rewrite (takez_all' a) by lia.
+    rewrite dropz_app_r by lia. replace (zlen a - zlen a) with 0 by lia. rewrite dropz_0. reflexivity.
+Qed.
+
+Lemma dl_step {A} (a s c : list A) e : 0 < zlen s ->
+  exists x, pop (a ++ s ++ c) (zlen a) = Ok (x, a ++ dropz 1 s ++ c) /\
+            insert (a ++ dropz 1 s ++ c) (zlen a + zlen s - 1) e = a ++ shl e s ++ c.
+Proof.
+  intros Hs. pose proof (zlen_nonneg a). pose proof (zlen_nonneg c).
+  destruct s as [|s0 s']; [exfalso; unfold zlen in Hs; cbn [length] in Hs; lia|]. exists s0. split.
+  - rewrite (pop_eq (a ++ (s0 :: s') ++ c) (zlen a) s0); [|rewrite !zlen_app; lia|apply nthz_mid].
+    cbn [app]. rewrite takez_mid, dropz_mid. reflexivity.
+  - change (dropz 1 (s0 :: s')) with s'. rewrite zlen_cons. pose proof (zlen_nonneg s').
+    rewrite insert_eq by (rewrite !zlen_app; lia).
+    rewrite takez_app_r by lia. rewrite dropz_app_r by lia.
+    replace (zlen a + (1 + zlen s') - 1 - zlen a) with (zlen s') by lia.
+    rewrite takez_app_l by lia. rewrite (takez_all' s') by lia.
+    rewrite dropz_app_r by lia. replace (zlen s' - zlen s') with 0 by lia. rewrite dropz_0.
+    unfold shl. change (dropz 1 (s0 :: s')) with s'. rewrite <- !app_assoc. reflexivity.
+Qed.
